@@ -80,8 +80,9 @@ def shard(arg):
         try:
             IBAN(base)  # the base itself must be valid in the library; if not, C01/C02 report it - here it is a precondition
         except SchwiftyException:
-            rec.excluded["base rejected by the library (C01/C02 territory)"] += 1
-            continue
+            # the base is valid by the reference; that the library rejects it is C01/C02's finding - its single-error
+            # neighbours must be rejected all the same, so they are still examined
+            rec.excluded["valid base rejected by the library (reported by C01/C02); its mutants are still examined"] += 1
         n_bases += 1
         for kind, pos, m in mutants(base):
             # History warm-up: the verdict may not depend on what was parsed before (C15), so a *valid* IBAN of another
